@@ -97,6 +97,17 @@ Proof.
   intros s x i H. destruct (newmark_step_homogeneous s x i) as [E1 [E2 _]]. rewrite E1, E2, H. reflexivity.
 Qed.
 
+(* change of the time unit: dt -> s dt, v -> v / s, a -> a / s^2, C -> s C, M -> s^2 M (forces, K, u unchanged) gives the
+   same right-hand side and system row, and returns the same u, v / s, a / s^2 -- the schemes carry no hidden time scale *)
+Local Notation GT f s y := (f I K (oscal s C) (oscal (s ^ 2) M) (s * dt) beta gamma alpha u_n (vscal (/ s) v_n) (vscal (/ s ^ 2) a_n) y bN F).
+Theorem newmark_time_rescaling : forall s x i, s <> 0 ->
+  GT newmark_rhs s (x) i = G newmark_rhs x i /\
+  (GT newmark_sysop s (x)) (x) i = newmark_A x i /\
+  GT newmark_up_u s (x) i = G newmark_up_u x i /\
+  GT newmark_up_v s (x) i = / s * G newmark_up_v x i /\
+  GT newmark_up_a s (x) i = / s ^ 2 * G newmark_up_a x i.
+Proof. intros s x i Hs; unfold newmark_A; repeat split; vf. Qed.
+
 (* row i of the system minus row i of the right-hand side of _Solver_Apply_Neumann
    = residual of the equation of motion at dof i *)
 Theorem newmark_eom_identity : forall x i,
@@ -142,6 +153,7 @@ Print Assumptions newmark_coefs_are_derivatives.
 Print Assumptions newmark_sysop_is_weighted_sum.
 Print Assumptions newmark_step_homogeneous.
 Print Assumptions newmark_scaled_solution.
+Print Assumptions newmark_time_rescaling.
 Print Assumptions newmark_eom_identity.
 Print Assumptions newmark_discrete_eom.
 Print Assumptions newmark_newton_consistent.
